@@ -23,6 +23,11 @@ const MAX_RECURSION_DEPTH: usize = 40;
 const MAX_DIMENSION_ARRAY: usize = 2;
 /// How many nesting of brackets can we have in an variable, eg `a[b[e]]` counts as 2
 const MAX_NUM_LEFT_BRACKETS: usize = 4;
+/// Chained operators/filters/attributes (`a + b + c..`, `a | f | g..`, `a.b.c..`) and `elif`s are
+/// parsed in a loop but each one can nest the AST one level deeper, and the AST is then compiled and
+/// dropped recursively. We limit how many we accept in a single `{{ }}`/`{% %}` (and how many `elif`
+/// an `if` can have) to avoid overflowing the stack.
+const MAX_CHAIN_DEPTH: usize = 256;
 
 // From https://matklad.github.io/2020/04/13/simple-but-powerful-pratt-parsing.html
 
@@ -130,6 +135,10 @@ pub struct Parser<'a> {
     recursion_depth: usize,
     // We limit the number of nesting for brackets in idents
     num_left_brackets: usize,
+    // How many chained operators we have seen in the current `{{ }}`/`{% %}`
+    chain_depth: usize,
+    // How many `elif` deep we are
+    elif_depth: usize,
     blocks_seen: HashSet<String>,
     components_seen: HashMap<String, Span>,
     output: ParserOutput,
@@ -148,6 +157,8 @@ impl<'a> Parser<'a> {
             recursion_depth: 0,
             array_dimension: 0,
             num_left_brackets: 0,
+            chain_depth: 0,
+            elif_depth: 0,
             blocks_seen: HashSet::with_capacity(10),
             components_seen: HashMap::with_capacity(10),
             output: ParserOutput::default(),
@@ -202,6 +213,18 @@ impl<'a> Parser<'a> {
             None => Err(self.eoi()),
             Some(c) => Ok(c),
         }
+    }
+
+    /// To call each time a loop nests what it has parsed so far one level deeper
+    fn increase_chain_depth(&mut self) -> TeraResult<()> {
+        self.chain_depth += 1;
+        if self.chain_depth > MAX_CHAIN_DEPTH {
+            return Err(Error::syntax_error(
+                "The expression is too complex".to_string(),
+                &self.current_span,
+            ));
+        }
+        Ok(())
     }
 
     fn is_in_loop(&self) -> bool {
@@ -313,6 +336,7 @@ impl<'a> Parser<'a> {
         loop {
             match self.next {
                 Some(Ok((Token::Dot, _))) | Some(Ok((Token::QuestionMarkDot, _))) => {
+                    self.increase_chain_depth()?;
                     let is_optional = matches!(self.next, Some(Ok((Token::QuestionMarkDot, _))));
                     if is_optional {
                         expect_token!(self, Token::QuestionMarkDot, "?.")?;
@@ -356,6 +380,7 @@ impl<'a> Parser<'a> {
                 }
                 // Subscript
                 Some(Ok((Token::LeftBracket, _)) | Ok((Token::QuestionMarkLeftBracket, _))) => {
+                    self.increase_chain_depth()?;
                     expr = self.parse_subscript(expr)?;
                 }
                 // Function call after a chain
@@ -808,6 +833,7 @@ impl<'a> Parser<'a> {
                 Token::Ident("or") => BinaryOperator::Or,
                 Token::Ident("is") => BinaryOperator::Is,
                 Token::LeftBracket => {
+                    self.increase_chain_depth()?;
                     lhs = self.parse_subscript(lhs)?;
                     continue;
                 }
@@ -841,6 +867,7 @@ impl<'a> Parser<'a> {
 
             // Advance past the op
             self.next_or_error()?;
+            self.increase_chain_depth()?;
 
             // Whether we get `is not`
             if matches!(op, BinaryOperator::Is)
@@ -1140,7 +1167,17 @@ impl<'a> Parser<'a> {
         let false_body = match &self.next {
             Some(Ok((Token::Ident("elif"), _))) => {
                 self.next_or_error()?;
-                vec![Node::If(self.parse_if()?)]
+                // Each elif is an `if` nested in the previous one
+                self.elif_depth += 1;
+                if self.elif_depth > MAX_CHAIN_DEPTH {
+                    return Err(Error::syntax_error(
+                        "The template nesting is too deep".to_string(),
+                        &self.current_span,
+                    ));
+                }
+                let node = Node::If(self.parse_if()?);
+                self.elif_depth -= 1;
+                vec![node]
             }
             Some(Ok((Token::Ident("else"), _))) => {
                 self.next_or_error()?;
@@ -1665,6 +1702,7 @@ impl<'a> Parser<'a> {
                     }
                 }
                 Token::VariableStart(_) => {
+                    self.chain_depth = 0;
                     let expr = self.parse_expression(0)?;
                     expect_token!(self, Token::VariableEnd(..), "}}")?;
                     nodes.push(Node::Expression(expr));
@@ -1690,6 +1728,7 @@ impl<'a> Parser<'a> {
                         Node::Content(c) => c.chars().all(|ch| ch.is_whitespace()),
                         _ => false,
                     });
+                    self.chain_depth = 0;
                     let node = self.parse_tag(is_first_non_ws)?;
                     expect_token!(self, Token::TagEnd(..), "%}")?;
                     if let Some(n) = node {
